@@ -9,7 +9,8 @@ SPEC = {
         {"name": "TestGRPCScenarioPaced", "quick": 12, "thorough": 60, "shards_quick": 4, "shards_thorough": 8, "timeout": 3000},
         {"name": "TestKnownWitness", "quick": 1, "thorough": 1, "shards": 1, "timeout": 300},
     ],
-    "rule": ("rapid-generated grpc/json ammo over the example TargetService (Hello/Auth/List/Order): payload field subsets, unicode and "
+    "rule": ("one grpc/json case in three (none with stalling entries) is read for 2-3 passes: every pass must reach the server like the first - method, message, metadata, deadline per call, one sample per call - also after the provider's ammo objects were released and handed out again; "
+             "rapid-generated grpc/json ammo over the example TargetService (Hello/Auth/List/Order): payload field subsets, unicode and "
              "template-looking strings, int64 as number (|v| <= 2^53) or as string (full range), camelCase or snake_case keys, unknown "
              "fields, ill-typed values, unknown methods; metadata maps (printable values; one key in three - the entry marker too - written the HTTP way: Capitalised-Per-Word, "
              "UPPER-CASE or mixed case, which gRPC carries in lower case; no two keys of an entry differ in case only); handlers that stall beyond "
@@ -39,7 +40,7 @@ SPEC = {
              "0.3-0.4 x timeout each; a mix of all of these. 1-2 invocations by 1-2 instances, one invocation is planned to take at most "
              "3.5 s; cases of a process run concurrently, each against a recording server of its own. Non-trivial = some call starts "
              "after more than `timeout` has (nominally) passed since the start of its invocation."),
-    "floors": {"TestGRPCScenarioPaced/call_starts_after_timeout_has_passed_since_scenario_start": 0.44,
+    "floors": {"TestGRPCJSON/several_passes": 0.12, "TestGRPCJSON/several_passes_beyond_the_provider_queue": 0.025, "TestGRPCScenarioPaced/call_starts_after_timeout_has_passed_since_scenario_start": 0.44,
                "TestGRPCScenarioPaced/beyond_timeout_by_sleep_steps": 0.2, "TestGRPCScenarioPaced/beyond_timeout_by_per_call_sleep": 0.08,
                "TestGRPCScenarioPaced/beyond_timeout_by_slow_answers_only": 1, "TestGRPCScenarioPaced/call_starts_late_within_timeout": 0.19,
                "TestGRPCJSON/reflect_port": 0.27, "TestGRPCJSON/reflect_port_client_per_instance": 0.12,
